@@ -160,7 +160,8 @@ def _worker(batch):
     try:
         for idx, beh in batch:
             dt = HY.DTS[idx % 3]
-            delta = HY.DELTAS[(idx // 3) % 3]
+            # 5 mm: coarser than many rises, which then cross no level at all and stay out of the curve
+            delta = (HY.DELTAS + [5.0])[(idx // 3) % 4]
             e0 = P.epoch_of(2016, 2, 1) + (idx % 5) * 86400 * 11
             wf, outc = HY.run_workflow(beh, dt, "UTC", e0, delta, wd, "p%d_%d" % (os.getpid(), idx))
             try:
@@ -170,7 +171,7 @@ def _worker(batch):
                                                beh["syden"], have)
                     # a second set-zeta-grid at another step: refused today (the grid is set once); if a tree
                     # accepts it, the curve tables must be those of the NEW grid (or gone), never stale rows
-                    delta2 = {1.0: 0.5, 0.5: 2.0, 2.0: 1.0}[delta]
+                    delta2 = {1.0: 0.5, 0.5: 2.0, 2.0: 1.0, 5.0: 1.0}[delta]
                     if wf.run("set-zeta-grid", "-d", repr(delta2)).ok:
                         p2, _ = lattice_cases(wf.db, "beh%d dt%d grid%g regridded to %g" % (idx, dt, delta, delta2),
                                               wf.pres.e0, dt, beh["syden"], have)
